@@ -27,7 +27,7 @@ def expr_statements(ctx, n, depth=(1, 2, 3), null_rate=None, styles=("minimal", 
         s = g.random(ctx.rng.choice(depth))
         e = G.write(s, ctx.rng.choice(styles), ctx.rng)
         sql = ctx.rng.choice(POSITIONS).format(e=G.render(e, texts))
-        out.append({"sql": sql, "dialect": "common", "origin": "gen-expr"})
+        out.append({"sql": sql, "dialect": "common", "origin": "gen-expr", "e": e})
     return out
 
 
